@@ -148,12 +148,16 @@ ParIndex(P, m, name) ==
 
 \* A production may assign local variables before its asm block
 \* (`{ d = a + 1  asm { ld {d} } }', prod.assigns: sequence of [name, e]):
-\* `{d}' for a LOCAL d passes the value, not text: the line sees a fresh
-\* identifier (LocName) that is bound to the local's value.
+\* `{d}' for a LOCAL d passes the VALUE, not text.  Here the line receives an
+\* identifier that belongs to this rule alone (LocName) and denotes that value
+\* wherever the text travels afterwards - also when the instruction that
+\* receives it is a macro that pastes its argument into a block of its own.
+\* (The implementation writes `__d' and binds it one level down only: the known
+\* finding F45.)  A parameter of the same name wins: `{a}' is then text.
 Assigns(prod) == IF "assigns" \in DOMAIN prod THEN prod.assigns ELSE <<>>
 LocalNames(prod) == {Assigns(prod)[k].name : k \in 1..Len(Assigns(prod))}
-LocName(n) == "__" \o n
-LocTok(n, b) == [k |-> "id", s |-> LocName(n), lc |-> LocName(n), c0 |-> "_", text |-> <<>>, b |-> b]
+LocName(n, r) == "__" \o n \o "@" \o ToString(r)
+LocTok(n, r, b) == [k |-> "id", s |-> LocName(n, r), lc |-> LocName(n, r), c0 |-> "_", text |-> <<>>, b |-> b]
 
 RECURSIVE SubstToks(_, _, _, _, _)
 \* [ok, toks]
@@ -162,10 +166,10 @@ SubstToks(P, ctoks, m, ltoks, i) ==
     ELSE LET rest == SubstToks(P, ctoks, m, ltoks, i + 1) IN
          IF ~rest.ok THEN rest
          ELSE IF ltoks[i].k # "ph" THEN [ok |-> TRUE, toks |-> <<ltoks[i]>> \o rest.toks]
-         ELSE IF ltoks[i].s \in LocalNames(P.rules[m.r].prod)
-         THEN [ok |-> TRUE, toks |-> <<LocTok(ltoks[i].s, ltoks[i].b)>> \o rest.toks]
          ELSE LET pi == ParIndex(P, m, ltoks[i].s) IN
-              IF pi = 0 THEN [ok |-> FALSE, toks |-> <<>>]            \* unknown substitution argument
+              IF pi = 0 /\ ltoks[i].s \in LocalNames(P.rules[m.r].prod)
+              THEN [ok |-> TRUE, toks |-> <<LocTok(ltoks[i].s, m.r, ltoks[i].b)>> \o rest.toks]
+              ELSE IF pi = 0 THEN [ok |-> FALSE, toks |-> <<>>]            \* unknown substitution argument
               ELSE LET span == SubSeq(ctoks, m.args[pi].from, m.args[pi].to - 1)
                        first == [span[1] EXCEPT !.b = ltoks[i].b]
                    IN [ok |-> TRUE, toks |-> <<first>> \o Tail(span) \o rest.toks]
@@ -261,40 +265,41 @@ AsmLines(P, toks, m, lines, env, labels, j, acc) ==
               IF cs = {} THEN ErrV
               ELSE LET base == env["$"].v * 8
                        here == (base + Len(acc)) \div 8
-                       inner == [x \in DOMAIN env \cup DOMAIN labels \cup {"#depth"} |->
-                                    IF x \in {"$", "pc"} THEN (IF (base + Len(acc)) % 8 = 0 THEN IntV(here, -1) ELSE ErrV)
-                                    ELSE IF x = "#depth" THEN IntV(DepthOf(env) + 1, -1)
-                                    ELSE IF x \in DOMAIN labels THEN labels[x] ELSE env[x]]
+                       \* the block's labels are local variables of the lines' context; `$' is the line's own address
+                       hereV == IF (base + Len(acc)) % 8 = 0 THEN IntV(here, -1) ELSE ErrV
+                       inner == BindLocals(Bind(Bind(env, "$", hereV), "pc", hereV), labels)
                        e == Encoding(P, st.toks, cs, inner)
                    IN IF e.t = "big" THEN BigV
                       ELSE IF e.t # "ok" THEN ErrV
                       ELSE AsmLines(P, toks, m, lines, env, labels, j + 1, acc \o e.bits)
 
-\* value of candidate m: the production evaluated with the parameters bound
-\* (locals shadow nothing else: symbols stay visible, the context is kept)
+\* value of candidate m.  The arguments are evaluated where the instruction is written
+\* (env, with whatever locals are in scope there); the production is evaluated in a
+\* context of its own, one level deeper: the symbols and the nesting context stay
+\* visible, of the local variables only the parameters.
 EvalCand(P, toks, m, env) ==
     LET b == BindArgs(P, toks, m, env, 1, <<>>)
-        prod == P.rules[m.r].prod IN
+        prod == P.rules[m.r].prod
+        penv == BindLocals(Bind(NoLocals(env), "#depth", IntV(DepthOf(env) + 1, -1)), b.loc) IN
     IF ~b.ok THEN b.v
     ELSE IF prod.k = "asm"
-    THEN IF DepthOf(env) + 1 >= MaxEvalDepth THEN ErrV
+    THEN IF DepthOf(penv) >= MaxEvalDepth THEN ErrV
          ELSE IF env["$"].t # "int" THEN ErrV
-         ELSE LET \* the local variables, in order, each seeing the parameters and the locals before it
-                  penv == [x \in DOMAIN env \cup DOMAIN b.loc |-> IF x \in DOMAIN b.loc THEN b.loc[x] ELSE env[x]]
+         ELSE LET \* the local variables, in order, each seeing the parameters and the locals before it;
+                  \* the block's lines see none of them by name, only the values passed as `{d}'
                   RECURSIVE Locals(_, _, _)
                   Locals(k, e, acc) ==
                       IF k > Len(Assigns(prod)) THEN [ok |-> TRUE, v |-> VoidV, loc |-> acc]
                       ELSE LET x == Eval(Assigns(prod)[k].e, e).v IN
                            IF Propagates(x) THEN [ok |-> FALSE, v |-> x, loc |-> acc]
-                           ELSE Locals(k + 1, Bind(e, Assigns(prod)[k].name, x), Bind(acc, LocName(Assigns(prod)[k].name), x))
+                           ELSE Locals(k + 1, BindLocal(e, Assigns(prod)[k].name, x), Bind(acc, LocName(Assigns(prod)[k].name, m.r), x))
                   lv == Locals(1, penv, <<>>)
               IN IF ~lv.ok THEN lv.v
-                 ELSE LET env2 == [x \in DOMAIN env \cup DOMAIN lv.loc |-> IF x \in DOMAIN lv.loc THEN lv.loc[x] ELSE env[x]] IN
+                 ELSE LET base == Bind(NoLocals(penv), "#depth", IntV(DepthOf(penv) + 1, -1))
+                          env2 == [x \in DOMAIN base \cup DOMAIN lv.loc |-> IF x \in DOMAIN lv.loc THEN lv.loc[x] ELSE base[x]] IN
                       AsmLines(P, toks, m, prod.lines, env2,
                                AsmLabelEnv(P, toks, m, prod.lines, env2, env["$"].v * 8), 1, <<>>)
-    ELSE Eval(prod, [x \in DOMAIN env \cup DOMAIN b.loc \cup {"#depth"} |->
-                        IF x = "#depth" THEN IntV(DepthOf(env) + 1, -1)
-                        ELSE IF x \in DOMAIN b.loc THEN b.loc[x] ELSE env[x]]).v
+    ELSE Eval(prod, penv).v
 
 \* an instruction's encoding: [t |-> "ok", bits, s] | "err" | "big"
 \*   every candidate must yield a sized integer, a failed constraint or
